@@ -1695,6 +1695,168 @@ def coloring_run(repo, out):
                                 key='coloring-run-ungated')
 
 
+# --------------------------------------------------------------------------- C31.scale_ctx
+SCALE_INV = {'scale_to_norm': 'scale_to_phys', 'scale_to_phys': 'scale_to_norm'}
+SCALE_CTX_FUNCS = [(SYS, 'System._scaled_context_all'), (SYS, 'System._unscaled_context')]
+
+
+def _scale_sites(g, region):
+    """Scaling operations in a CFG region: [(op, what-is-scaled dump, guards, args dump, anchor ast)]."""
+    res, seen = [], set()
+    for n in region:
+        if n.kind in ('entry', 'exit', 'raise', 'join'):
+            continue
+        for c in n.calls():
+            op = astx.callee_attr(c)
+            if op not in SCALE_INV or astx.receiver(c) is None or id(c) in seen:
+                continue
+            seen.add(id(c))
+            recv = astx.receiver(c)
+            what = astx.dump(recv)
+            st = astx.stmt_of(c)
+            for a in astx.ancestors(c):
+                if isinstance(a, ast.For) and isinstance(a.target, ast.Name) and isinstance(recv, ast.Name) and \
+                        a.target.id == recv.id:
+                    what = 'each:' + astx.dump(a.iter)
+                    st = a
+                    break
+            guards, anchor = [], st
+            for a in astx.ancestors(st):
+                if isinstance(a, ast.If):
+                    pos = astx.in_body(st, a, 'body')
+                    guards.append(astx.dump(a.test) + ('+' if pos else '-'))
+                    anchor = a
+                elif isinstance(a, (ast.For, ast.While)):
+                    anchor = a
+            args = astx.dump(ast.Tuple(elts=list(c.args) + [k.value for k in c.keywords], ctx=ast.Load()))
+            res.append((op, what, tuple(sorted(guards)), args, anchor, c))
+    return res
+
+
+@rule('C31.scale_ctx', floor=4)
+def scale_ctx(repo, out):
+    """The scaling context managers used by every derivative query undo each scale operation (same vectors, same guard, inverse operation) on the normal AND the exceptional exit of the with-body: a query that raises leaves the vectors as it found them."""
+    for rel, qn in SCALE_CTX_FUNCS:
+        fn = repo.func(rel, qn)
+        ctx = Ctx(repo, fn)
+        g = ctx.g
+        ys = [n for n in g.nodes if n.kind == 'stmt' and isinstance(n.ast, ast.Expr) and
+              isinstance(n.ast.value, ast.Yield)]
+        if len({id(n.ast) for n in ys}) != 1:
+            raise AnalysisError(f'{fn.ident}: expected exactly one yield')
+        y = ys[0]
+        succs = [m for m, _ in g.succ[y]]
+        after = g.reach(succs)
+        before = {n for n in g.nodes if n not in after and n is not y and g.path([n], [y]) is not None}
+        pre, post = _scale_sites(g, before), _scale_sites(g, after)
+        if not pre:
+            raise AnalysisError(f'{fn.ident}: no scaling operation before the yield')
+        used = set()
+        for op, what, guards, args, anchor, call in pre:
+            match = [p for p in post if p[0] == SCALE_INV[op] and p[1] == what and p[3] == args]
+            if not match:
+                out.bad(fn, call, f'`{astx.src(call)}` before the yield has no inverse ({SCALE_INV[op]} of the same '
+                        'vectors) after it: the vectors stay in the temporary scaling state', key=f'scale-undo:{op}:{what[:60]}')
+                continue
+            same_guard = [p for p in match if p[2] == guards]
+            if not same_guard:
+                out.bad(fn, match[0][5], f'the inverse of `{astx.src(call)}` runs under a different condition than the '
+                        'operation it undoes', key=f'scale-undo:{op}:{what[:60]}')
+                continue
+            anchors = [n for p in same_guard for n in g.nodes_of(p[4])]
+            used.update(id(p[5]) for p in same_guard)
+            w = g.must_pass(g.normal_succ(y), [g.exit], anchors, labels=cfgm.noexc)
+            if w is not None:
+                out.bad(fn, call, f'`{astx.src(call)}` is not undone when the with-body ends: {g.fmt_path(w)}',
+                        key=f'scale-undo:{op}:{what[:60]}')
+                continue
+            # exceptional exit: the inverse lives in a `finally` (or a catch-all handler) of a try around the
+            # yield, or -- any other shape -- every CFG path of the raising continuation passes it
+            exc_ok = False
+            for p in same_guard:
+                for t in astx.ancestors(p[4]):
+                    if isinstance(t, ast.Try) and astx.in_body(y.ast, t, 'body'):
+                        if astx.in_body(p[4], t, 'finalbody') or p[4] in t.finalbody:
+                            exc_ok = True
+                        for h in t.handlers:
+                            if (p[4] in h.body or any(p[4] is x for st in h.body for x in astx.walk(st, True))) and \
+                                    (h.type is None or astx.path(h.type) == 'BaseException'):
+                                exc_ok = True
+            if not exc_ok:
+                ex = [m2 for m2, lab in g.succ[y] if lab == 'exc']
+                w = g.must_pass(ex, [g.exit, g.raise_exit], anchors)
+                if w is not None:
+                    out.bad(fn, call, f'`{astx.src(call)}` is not undone when the with-body raises (the inverse is '
+                            'not in a try/finally around the yield): a derivative query that fails leaves the model '
+                            f'vectors in the wrong scaling state: {g.fmt_path(w)}', key=f'scale-undo:{op}:{what[:60]}')
+                    continue
+            out.ok(fn, call, f'undone by {SCALE_INV[op]} under the same guard on normal and exceptional exit')
+        for p in post:
+            if id(p[5]) not in used and not any(q[0] == SCALE_INV[p[0]] and q[1] == p[1] for q in pre):
+                out.bad(fn, p[5], f'`{astx.src(p[5])}` after the yield undoes nothing that was done before it',
+                        key=f'scale-unbalanced:{p[0]}:{p[1][:60]}')
+
+
+# --------------------------------------------------------------------------- C31.query_caches
+@rule('C31.query_caches', floor=2)
+def query_caches(repo, out):
+    """Every total-derivative query invalidates the model's memoised jacobian of/wrt lists before it re-targets the model's approximation of/wrt: no result depends on an earlier query's (of, wrt)."""
+    # 1. the memo really depends on the per-query state, and the clearing method clears all of it
+    sysm = repo.module(SYS)
+    clr = repo.func(SYS, 'System._clear_jac_caches')
+    cleared = {t.attr for st in astx.walk_stmts(clr.node.body) if isinstance(st, ast.Assign)
+               for t in st.targets if isinstance(t, ast.Attribute) and astx.path(t.value) == 'self'}
+    memo = set()
+    for qn in ('System._get_jac_ofs', 'System._get_jac_wrts'):
+        f = repo.func(SYS, qn)
+        for x in astx.walk(f.node):
+            if isinstance(x, ast.Attribute) and astx.path(x.value) == 'self' and x.attr.endswith('_cache'):
+                memo.add(x.attr)
+    if not memo:
+        raise AnalysisError('memo attributes of _get_jac_ofs/_get_jac_wrts not found')
+    dep = any(astx.mentions(repo.func(GROUP, q).node, '_owns_approx_of', '_owns_approx_wrt')
+              for q in ('Group._jac_of_iter', 'Group._jac_wrt_iter'))
+    if not dep:
+        raise AnalysisError('Group._jac_of_iter/_jac_wrt_iter no longer depend on _owns_approx_of/_wrt')
+    miss = sorted(memo - cleared)
+    if miss:
+        out.bad(clr, clr.node, f'_clear_jac_caches does not reset {miss}: the memoised of/wrt list of an earlier query '
+                'survives', key='cache-clear-incomplete')
+    else:
+        out.ok(clr, clr.node, f'_clear_jac_caches resets every memo read by _get_jac_ofs/_get_jac_wrts: {sorted(memo)}')
+    # 2. unconditional invalidation before the query re-targets the approximation
+    fn = repo.func(TJ, '_TotalJacInfo.__init__')
+    ctx = Ctx(repo, fn)
+    g = ctx.g
+    retarget = g.calling('_initialize_model_approx')
+    if not retarget:
+        raise AnalysisError(f'{fn.ident}: _initialize_model_approx call not found')
+
+    def clears_model(n):
+        for c in n.calls():
+            if astx.callee_attr(c) == '_clear_jac_caches':
+                p = ctx.norm_path(astx.receiver(c), n) or ''
+                if p.endswith('.model') or p == 'model':
+                    return True
+        return False
+    clears = g.where(clears_model)
+    for r in retarget:
+        if not clears:
+            out.bad(fn, r.ast, 'the query re-targets model._owns_approx_of/_wrt but never calls '
+                    'model._clear_jac_caches(): the memoised of/wrt lists of the previous query are reused',
+                    key='cache-not-cleared')
+            continue
+        w = g.dominated_by(r, clears, labels=cfgm.noexc)
+        if w is not None:
+            out.bad(fn, clears[0].ast, 'model._clear_jac_caches() is skipped on some path to '
+                    '_initialize_model_approx: an approximated total (approx_totals model, FD half of check_totals) '
+                    f'then reuses the of/wrt lists memoised by an earlier query with different of/wrt: {g.fmt_path(w)}',
+                    key='cache-not-cleared')
+        else:
+            out.ok(fn, clears[0].ast, 'memoised of/wrt lists are invalidated on every path before the approximation '
+                   'is re-targeted')
+
+
 # --------------------------------------------------------------------------- self-test
 _CTX_OLD = ("    try:\n        yield\n    finally:\n        problem._metadata['coloring_randgen'] = None\n"
             "        problem._computing_coloring = False\n"
@@ -1897,6 +2059,62 @@ selftest(
     Twin('twin-ctx-unpack-two-saves', COLOR,
          "    saved_rand_subjacs = problem._metadata['randomize_subjacs']\n    saved_rand_seeds = problem._metadata['randomize_seeds']\n",
          "    saved_rand_subjacs, saved_rand_seeds = problem._metadata['randomize_subjacs'], problem._metadata['randomize_seeds']\n"),
+    # ---- round-2 seeds and their clauses
+    Mutant('ct-seed-snapshot-inside-step-loop', PROB,
+           "        approx = model._owns_approx_jac\n        approx_of = model._owns_approx_of\n"
+           "        approx_wrt = model._owns_approx_wrt\n        approx_jac_meta = model._owns_approx_jac_meta\n", "",
+           'C31.check_totals',
+           also=[(PROB, "        for step in steps:\n            # Approximate FD\n",
+                  "        for step in steps:\n            approx = model._owns_approx_jac\n            approx_of = model._owns_approx_of\n"
+                  "            approx_wrt = model._owns_approx_wrt\n            approx_jac_meta = model._owns_approx_jac_meta\n"
+                  "            # Approximate FD\n")]),
+    Mutant('qc-seed-conditional-clear', TJ, "        model._clear_jac_caches()\n",
+           "        if driver and driver._total_jac_linear is not None:\n            model._clear_jac_caches()\n", 'C31.query_caches'),
+    Mutant('qc-clear-after-retarget', TJ, "        model._clear_jac_caches()\n", "", 'C31.query_caches',
+           also=[(TJ, "        self.modes = modes\n", "        self.modes = modes\n        model._clear_jac_caches()\n")]),
+    Mutant('qc-clear-incomplete', SYS, "        self._jac_ofs_cache = None\n        self._jac_wrts_cache = {}\n\n    def _jac_of_iter",
+           "        self._jac_ofs_cache = None\n\n    def _jac_of_iter", 'C31.query_caches'),
+    Twin('twin-qc-clear-via-alias', TJ, "        model._clear_jac_caches()\n",
+         "        mdl = problem.model\n        mdl._clear_jac_caches()\n"),
+    Twin('twin-qc-clear-moved-down', TJ, "        model._clear_jac_caches()\n\n        self.comm = model.comm\n",
+         "        self.comm = model.comm\n        model._clear_jac_caches()\n"),
+    Mutant('sc-seed-scaled-all-no-finally', SYS,
+           "        try:\n\n            yield\n\n        finally:\n\n            if self._has_output_scaling:\n"
+           "                for vec in self._vectors['output'].values():\n                    vec.scale_to_phys()\n"
+           "            if self._has_resid_scaling:\n                for vec in self._vectors['residual'].values():\n"
+           "                    vec.scale_to_phys()\n",
+           "        yield\n\n        if self._has_output_scaling:\n"
+           "            for vec in self._vectors['output'].values():\n                vec.scale_to_phys()\n"
+           "        if self._has_resid_scaling:\n            for vec in self._vectors['residual'].values():\n"
+           "                vec.scale_to_phys()\n", 'C31.scale_ctx'),
+    Mutant('sc-unscaled-resid-not-undone', SYS,
+           "            if self._has_resid_scaling:\n                for vec in residuals:\n                    vec.scale_to_norm()\n", "",
+           'C31.scale_ctx'),
+    Mutant('sc-unscaled-wrong-guard', SYS,
+           "            if self._has_resid_scaling:\n                for vec in residuals:\n                    vec.scale_to_norm()\n",
+           "            if self._has_output_scaling:\n                for vec in residuals:\n                    vec.scale_to_norm()\n",
+           'C31.scale_ctx'),
+    Mutant('sc-scaled-all-same-op', SYS,
+           "                for vec in self._vectors['residual'].values():\n                    vec.scale_to_phys()\n",
+           "                for vec in self._vectors['residual'].values():\n                    vec.scale_to_norm()\n", 'C31.scale_ctx'),
+    Mutant('sc-scaled-all-wrong-vectors', SYS,
+           "            if self._has_resid_scaling:\n                for vec in self._vectors['residual'].values():\n                    vec.scale_to_phys()\n",
+           "            if self._has_resid_scaling:\n                for vec in self._vectors['output'].values():\n                    vec.scale_to_phys()\n",
+           'C31.scale_ctx'),
+    Twin('twin-sc-restore-order-swapped', SYS,
+         "            if self._has_output_scaling:\n                for vec in outputs:\n                    vec.scale_to_norm()\n\n"
+         "            if self._has_resid_scaling:\n                for vec in residuals:\n                    vec.scale_to_norm()\n",
+         "            if self._has_resid_scaling:\n                for vec in residuals:\n                    vec.scale_to_norm()\n\n"
+         "            if self._has_output_scaling:\n                for vec in outputs:\n                    vec.scale_to_norm()\n"),
+    Twin('twin-sc-except-reraise', SYS,
+         "        try:\n\n            yield\n\n        finally:\n\n            if self._has_output_scaling:\n                for vec in outputs:\n"
+         "                    vec.scale_to_norm()\n\n            if self._has_resid_scaling:\n                for vec in residuals:\n"
+         "                    vec.scale_to_norm()\n",
+         "        try:\n            yield\n        except BaseException:\n            if self._has_output_scaling:\n                for vec in outputs:\n"
+         "                    vec.scale_to_norm()\n            if self._has_resid_scaling:\n                for vec in residuals:\n"
+         "                    vec.scale_to_norm()\n            raise\n"
+         "        if self._has_output_scaling:\n            for vec in outputs:\n                vec.scale_to_norm()\n"
+         "        if self._has_resid_scaling:\n            for vec in residuals:\n                vec.scale_to_norm()\n"),
     # ---- twins
     Twin('twin-zero-vecs-alias', TJ, "        self.model._doutputs.set_val(0.0)\n        self.model._dresiduals.set_val(0.0)\n",
          "        mdl = self.model\n        mdl._doutputs.set_val(0.0)\n        dres = mdl._dresiduals\n        dres.set_val(0.0)\n"),
